@@ -8,7 +8,7 @@ use std::sync::RwLock;
 
 // @h c04_range_directory | <DirectoryPack as Pack>::check; Reader::{parse_block_in,create_stream}; CheckInfo::{parse,check}; ByteStream::read; PackHeader::check_info_size | the body bytes, check_info_pos in {8, 20} (case split), one optional single byte alteration of the body or of the stored digest | the hash is fed exactly bytes [0, check_info_pos); a pristine pack verifies; an altered one does not | body <= 20 bytes; pack state built by struct literal; O-crc accepts, O-hash stand-in digest
 
-fn mk(reader: Reader, cip: u64) -> DirectoryPack {
+pub(crate) fn mk(reader: Reader, cip: u64) -> DirectoryPack {
     let pack_header = PackHeader {
         magic: PackKind::Directory, app_vendor_id: VendorId::from([0u8; 4]), major_version: 0, minor_version: 2,
         uuid: uuid::Uuid::from_bytes([1u8; 16]), flags: 0, file_size: Size::new(cip + 37 + 64), check_info_pos: Offset::new(cip) };
